@@ -2,7 +2,8 @@
 import random
 
 from harness import gen_objects as G
-from harness.impl_history import impl_history_op, call_table, is_export
+from harness import shims
+from harness.impl_history import impl_history_op, call_table, is_export, isolation_mode, cold
 
 ID = "C10"
 LEAN_MODULE = "BioCantor.Props.C10"
@@ -20,9 +21,11 @@ RULE = ("(a) cache discipline: every key sequence over <= 3 keys of length <= 6 
         "attributes and Parent.strand read repeatedly; (c) CDS histories over {list codons, count codons, extract_sequence, "
         "has_valid_stop} (all words of length <= 4, exhaustive) and qualifier merges; (d) histories of 30-40 read-only "
         "questions (every public property / attribute / argument-less method found by introspection + a table of calls "
-        "with arguments) on each of 10 object kinds x 4 parent modes, interleaved with Parent-cache fillers, every answer "
-        "(canonical value + Python type) compared with a freshly built twin asked that single question under cold caches; "
-        "operands snapshotted (to_dict, guid, hash, ==, str, qualifiers of all children) before/after. "
+        "with arguments) on each of 10 object kinds x 4 parent modes x 2 spellings of sequence types, interleaved with "
+        "fillers (P<n> unrelated Parents incl. > cache size = eviction, W twin, X cache_clear, S near-identical siblings "
+        "that are asked the same questions, T:s/T:e other spelling), every answer (canonical value + Python type) compared "
+        "with a freshly built twin asked that single question under cold caches in a pristine forked process; "
+        "operands snapshotted (to_dict, guid, hash, == fresh twin, str, qualifiers of all children) before/after. "
         "non-trivial = a history with >= 20 calls of which >= 1 is memoised/lazy and that contains a cache filler, or a "
         "cache-discipline line in which an eviction happens; distinct = distinct lines")
 EXHAUSTIVE_NOTE = ("lru: all key sequences of length <= 6 over 3 keys x capacity 0..3; cdshist: all words of length <= 4 over "
@@ -265,7 +268,7 @@ def hist_cases(run):
     cap = pm.PARENT_CACHE_SIZE
     rng = run.rng
     for km in KINDMODES:
-        per = (10 if km.endswith(".e") else 5) if run.tier == "quick" else (300 if km.endswith(".e") else 150)
+        per = (10 if km.endswith(".e") else 5) if run.tier == "quick" else (200 if km.endswith(".e") else 100)
         for _ in range(per):
             seed = rng.randint(0, 10 ** 6)
             h, flavour = history(rng, km, cap)
@@ -308,6 +311,31 @@ def shrink(failure, mod=None):
     out = impl(small)
     return {"line": small, "impl": out, "model": None, "spec": "fail " + " ".join(out.split()[1:4]),
             "shrunk_from": line}
+
+
+def extra_checks(run):
+    """evidence that the fillers really fill and evict the process-wide Parent cache, and how histories were isolated"""
+    from inscripta.biocantor.parent import Parent
+    from inscripta.biocantor.parent import parent as pm
+    cold()
+    r = G.make("transcript", random.Random(1), "chunk", "e")
+    r.build()
+    own = Parent.cache_info().currsize
+    for i in range(pm.PARENT_CACHE_SIZE + 5):
+        Parent(id=f"evidence{i}")
+    info = Parent.cache_info()
+    before = info.misses
+    r.build()
+    run.extra["parent_cache"] = {"maxsize": info.maxsize, "entries_of_one_transcript_on_a_chunk": own,
+                                 "currsize_after_filler": info.currsize,
+                                 "misses_when_rebuilding_after_eviction": Parent.cache_info().misses - before}
+    if info.currsize != info.maxsize or Parent.cache_info().misses == before:
+        run.failures.append({"line": "extra parent-cache-eviction", "impl": str(info), "model": None,
+                             "spec": "fail the P<n> filler no longer evicts the Parent cache"})
+    cold()
+    run.extra["history_isolation"] = isolation_mode()
+    run.extra["shims_used"] = list(shims.USED)
+    run.extra["call_tokens_per_kind"] = {km: len(tokens_for(km)) for km in KINDMODES if km.endswith(".chrom.e")}
 
 
 def cases(run):
